@@ -14,6 +14,7 @@ from pyvc.ctx import PyRaise
 from pyvc.harness import Case
 from pyvc.interp import Interp
 from pyvc.models import _norm, dec_int, enc_int
+from pyvc.stream import SymStream
 from pyvc.sym import SBytes, SEnum, STyped, Unsupported, is_z3, strip, zint
 
 
@@ -234,3 +235,145 @@ def _flush_order(interp, self):
     import sys
 
     return sys.byteorder if self.endian in ("@", "=") else ("little" if self.endian == "<" else "big")
+
+
+# ------------------------------------------------------------------------------------------------
+# T1: the real BitBuffer.read / write / flush / reset bodies against the contract
+
+
+def _bv_spec_slice(U, W, lo, bits, N):
+    """bits [lo, lo+bits) of the unsigned W-bit unit, as an N-bit vector"""
+    return z3.ZeroExt(N - bits, z3.Extract(lo + bits - 1, lo, U))
+
+
+class BBCase(Case):
+    """One (unit width W, byte order) configuration; inside, every (bits consumed, field width) pair is checked with
+    the unit contents symbolic (bit-vector mode, N = W + 8 bits: no operation can overflow, see bounds below)."""
+
+    timeout_ms = 30000
+    budget_s = 600
+    functions = ["dissect/cstruct/bitbuffer.py:BitBuffer.read", "dissect/cstruct/bitbuffer.py:BitBuffer.write",
+                 "dissect/cstruct/bitbuffer.py:BitBuffer.flush", "dissect/cstruct/bitbuffer.py:BitBuffer.reset"]
+
+    def __init__(self, W, endian, op, signed):
+        self.W, self.endian, self.op, self.signed = W, endian, op, signed
+        self.name = f"bitbuffer:{op}[W={W},{endian},{'signed' if signed else 'unsigned'}-storage]"
+
+    def body(self, ctx):
+        from dissect.cstruct.bitbuffer import BitBuffer
+        from pyvc.fakes import FakeType
+
+        W, N = self.W, self.W + 8
+        it = Interp(ctx)
+        e = self.endian
+        size = W // 8
+        if self.op == "read":
+            U = z3.BitVec("U", N)  # python value of the unit as returned by the storage type (sign-extended)
+            lim = 1 << (W - 1) if self.signed else 1 << W
+            ctx.assume(z3.And(U >= (-lim if self.signed else 0), U < lim))
+            ctx.case_inputs["U"] = U
+            Uw = z3.Extract(W - 1, 0, U)  # the unit's W bits
+            ft = FakeType("unit", size, reader=lambda stream: U)
+            other = FakeType("other", size)
+            for c in range(0, W + 1):
+                for bits in range(1, W - c + 1):
+                    bb = BitBuffer(object(), e)
+                    # representation invariant after c bits were consumed
+                    if c == 0:
+                        bb._type, bb._remaining, bb._buffer = (other if (bits % 2) else None), 0 if (bits % 3) else 5, 0
+                    else:
+                        bb._type, bb._remaining = ft, W - c
+                        bb._buffer = z3.simplify(U >> c) if e == "<" else U
+                    v = it.call(BitBuffer.read, [bb, ft, bits])
+                    lo = spec_lo(W, c, bits, "<" if e == "<" else ">")
+                    ctx.prove(f"read/c={c},bits={bits}/value==spec_bits", v == _bv_spec_slice(Uw, W, lo, bits, N))
+                    ctx.prove(f"read/c={c},bits={bits}/state", z3.And(
+                        bb._remaining == W - c - bits, bb._type is ft,
+                        (bb._buffer == (U >> (c + bits))) if e == "<" else (bb._buffer == U)))
+                # straddle: a field wider than what is left is refused
+                if 0 < c < W:
+                    bb = BitBuffer(object(), e)
+                    bb._type, bb._remaining, bb._buffer = ft, W - c, (z3.simplify(U >> c) if e == "<" else U)
+                    try:
+                        it.call(BitBuffer.read, [bb, ft, W - c + 1])
+                        ctx.prove(f"read/c={c}/straddle-refused", False, info="returned a value")
+                    except PyRaise as ex:
+                        ctx.prove(f"read/c={c}/straddle-refused", ex.cls is ValueError, info=ex.cls.__name__)
+            ctx.cover("read")
+        elif self.op == "write":
+            ft = FakeType("unit", size)
+            for c in range(0, W):
+                for bits in range(1, W - c + 1):
+                    P = z3.BitVec(f"P_{c}_{bits}", N)
+                    data = z3.BitVec(f"data_{c}_{bits}", N)
+                    lo = spec_lo(W, c, bits, "<" if e == "<" else ">")
+                    # invariant of the pending unit: only bits of already written fields may be set
+                    filled_mask = ((1 << c) - 1) if e == "<" else (((1 << c) - 1) << (W - c))
+                    pre = z3.And(P & z3.BitVecVal(~filled_mask & ((1 << N) - 1), N) == 0, z3.ULT(data, z3.BitVecVal(1 << bits, N)))
+                    out = SymStream(ctx, SBytes([]), 0, name="out")
+                    bb = BitBuffer(out, e)
+                    if c == 0:
+                        bb._type, bb._remaining, bb._buffer = None, 0, 0
+                        Pv = z3.BitVecVal(0, N)
+                    else:
+                        bb._type, bb._remaining, bb._buffer = ft, W - c, P
+                        Pv = P
+                    ctx.assume(pre)
+                    try:
+                        it.call(BitBuffer.write, [bb, ft, data, bits])
+                    except PyRaise as ex:
+                        ctx.prove(f"write/c={c},bits={bits}/accepts-fitting-value", False, info=f"raised {ex.cls.__name__}")
+                        continue
+                    newP = Pv | (data << lo)
+                    if c + bits == W:
+                        # unit complete: flushed exactly once, in the unit's byte order, state reset
+                        exp = [z3.BV2Int(z3.Extract(8 * i + 7, 8 * i, newP)) for i in range(size)]
+                        exp = exp if e == "<" else list(reversed(exp))
+                        got = out.data.items
+                        ok = len(got) == size and z3.And(*[zint(g) == x for g, x in zip(got, exp)])
+                        ctx.prove(f"write/c={c},bits={bits}/flushes-unit-bytes", z3.Implies(pre, ok) if ok is not False else False)
+                        ctx.prove(f"write/c={c},bits={bits}/state-reset", bb._type is None and bb._remaining == 0 and isinstance(bb._buffer, int) and bb._buffer == 0)
+                    else:
+                        ctx.prove(f"write/c={c},bits={bits}/slice-placed", z3.Implies(pre, bb._buffer == newP))
+                        ctx.prove(f"write/c={c},bits={bits}/state", bb._remaining == W - c - bits and bb._type is ft and len(out.data.items) == 0)
+            ctx.cover("write")
+        elif self.op == "flush":
+            P = z3.BitVec("P", N)
+            ctx.assume(z3.And(P >= 0, z3.ULT(P, z3.BitVecVal(1 << W, N))))
+            ft = FakeType("unit", size)
+            out = SymStream(ctx, SBytes([]), 0, name="out")
+            bb = BitBuffer(out, e)
+            bb._type, bb._remaining, bb._buffer = ft, 3 if W > 3 else 1, P
+            it.call(BitBuffer.flush, [bb])
+            exp = [z3.BV2Int(z3.Extract(8 * i + 7, 8 * i, P)) for i in range(size)]
+            exp = exp if e == "<" else list(reversed(exp))
+            got = out.data.items
+            ctx.prove("flush/writes-unit-once-in-unit-byte-order", len(got) == size and z3.And(*[zint(g) == x for g, x in zip(got, exp)]))
+            ctx.prove("flush/state-reset", bb._type is None and bb._remaining == 0 and isinstance(bb._buffer, int) and bb._buffer == 0)
+            bb2 = BitBuffer(out, e)
+            it.call(BitBuffer.flush, [bb2])
+            ctx.prove("flush/no-pending-unit-writes-nothing", len(out.data.items) == size)
+            bb3 = BitBuffer(out, e)
+            bb3._type, bb3._remaining, bb3._buffer = ft, 2, P
+            it.call(BitBuffer.reset, [bb3])
+            ctx.prove("reset/discards", bb3._type is None and bb3._remaining == 0 and isinstance(bb3._buffer, int) and bb3._buffer == 0 and len(out.data.items) == size)
+            ctx.cover("flush")
+
+    def native(self, inputs):
+        return None
+
+
+def make_bb(W, endian, op, signed):
+    return BBCase(W, endian, op, signed)
+
+
+def t1_specs(tier="quick"):
+    widths = [8, 16, 24, 32] if tier == "quick" else [8, 16, 24, 32, 48, 64]
+    out = []
+    for W in widths:
+        for e in ("<", ">"):
+            out.append(("contracts.bitbuffer", "make_bb", (W, e, "read", False)))
+            out.append(("contracts.bitbuffer", "make_bb", (W, e, "read", True)))
+            out.append(("contracts.bitbuffer", "make_bb", (W, e, "write", False)))
+            out.append(("contracts.bitbuffer", "make_bb", (W, e, "flush", False)))
+    return out
